@@ -32,7 +32,8 @@ CLAIM = dict(
     "in the root with composed offsets; induction over the program), nest_offsets (the composed offset is the accumulated sum of the normalised slice starts, explicitly), subCoords_unfold (definitional), time_slice / time_interval bookkeeping, "
     "stack_slice_rel / stack_slice_dated / stack_slice_shared_reference / stack_slice_dates (stack then time_slice: data and dates exactly; relative time = the stored one for images "
     "without dates, date_i - ref_0 for dated images with arbitrary stored times and reference dates, hence the original exactly when the images share one reference date - "
-    "this is how the property's stack sentence is read). DATA ON ARRAYS (DarsiaModel.ImageArr: pixel array = function from the raw "
+    "this is how the property's stack sentence is read). DATA ON ARRAYS for EVERY payload layout - scalar, vector and tensor-valued (component multi-index of any rank; time axis addressed at position space_dim as in the code) - "
+    "(DarsiaModel.ImageArr: pixel array = function from the raw "
     "numpy index to a value tag; numpy index arithmetic of subregion/time_slice/time_interval/np.stack): extract_data_eq (for every root - scalar/vector, single/series - "
     "and every extraction program: entry (t,v,c) of the result = root entry (root time index of slab t, v + composed offset, c)), extract_data_inv, append_data_eq, "
     "stack_slice_data. append_offset_keeps_times (an explicit offset, 0 included, "
@@ -69,7 +70,7 @@ def has_times(r):
     return r["tkind"] in ("rel", "both")
 
 
-def gen_root(rng, rid, dim=None, series=None, shape=None, geom=None, tkind=None, vector=None, dyadic=True):
+def gen_root(rng, rid, dim=None, series=None, shape=None, geom=None, tkind=None, vector=None, dyadic=True, tensor=False):
     dim = dim or rng.choice((2, 2, 3))
     cap = 6 if dim == 2 else 4
     shape = shape or tuple(rng.choice([1, 2, 3, 3, 4, 5, cap, rng.randint(1, cap)]) for _ in range(dim))
@@ -90,7 +91,7 @@ def gen_root(rng, rid, dim=None, series=None, shape=None, geom=None, tkind=None,
     t0 = rng.randint(1, 50)
     incs = [rng.randint(1, 30) for _ in range(T)]
     stamps = [t0 + sum(incs[:k]) for k in range(T)]
-    return dict(rid=rid, dim=dim, shape=list(shape), dims=list(geom[0]), origin=geom[1], series=series, T=T, vector=vector,
+    return dict(rid=rid, dim=dim, shape=list(shape), dims=list(geom[0]), origin=geom[1], series=series, T=T, vector=bool(vector) and not tensor, tensor=bool(tensor),
                 tkind=tkind, stamps=stamps, dyadic=dyadic)
 
 
@@ -100,7 +101,9 @@ def root_array(r):
     sp = np.arange(n).reshape(shape)
     slabs = [((r["rid"] * 8 + t) * SP + sp) for t in range(r["T"])]
     arr = np.stack(slabs, axis=-1) if r["series"] else slabs[0]
-    if r["vector"]:
+    if r.get("tensor"):  # tensor-valued payload, range shape (2, 2): entry (c0, c1) = 4*code + 2*c0 + c1
+        arr = np.stack([arr * 4.0 + k for k in range(4)], axis=-1).reshape(arr.shape + (2, 2))
+    elif r["vector"]:
         arr = np.stack([arr * 2, arr * 2 + 1], axis=-1)
     else:
         arr = arr * 2
@@ -108,7 +111,7 @@ def root_array(r):
 
 
 def build_root(d, r):
-    kw = dict(space_dim=r["dim"], dimensions=list(r["dims"]), scalar=not r["vector"], series=r["series"])
+    kw = dict(space_dim=r["dim"], dimensions=list(r["dims"]), scalar=not (r["vector"] or r.get("tensor")), series=r["series"])
     if r["origin"] is not None:
         kw["origin"] = list(r["origin"])
     if has_dates(r):
@@ -129,7 +132,7 @@ def root_tokens(r, origin):
     else:
         time = "none"
     date = f"{r['T']} " + " ".join(str(s) if has_dates(r) else "none" for s in r["stamps"])
-    return f"{r['rid']} {cs} {int(r['series'])} {int(not r['vector'])} {r['T']} {time} {date}"
+    return f"{r['rid']} {cs} {int(r['series'])} {int(not (r['vector'] or r.get('tensor')))} {r['T']} {time} {date}"
 
 
 # ---------------------------------------------------------------------------
@@ -153,7 +156,12 @@ def decode_slabs(im):
     dim = im.space_dim
     arr = np.asarray(im.img)
     if not im.scalar:
-        arr = arr[..., 0]
+        # component (0, …, 0) of every entry: the component axes are the trailing ones, after space and time
+        want_rank = dim + (1 if im.series else 0)
+        ncomp = max(0, arr.ndim - want_rank)
+        arr = arr[(Ellipsis,) + (0,) * ncomp]
+        if ncomp >= 2:
+            arr = arr / 2  # tensor payloads are coded 4*code + component
     arr = arr / 2
     slabs = [arr[..., k] for k in range(arr.shape[dim])] if im.series else [arr]
     out = []
@@ -182,10 +190,11 @@ def arr_str(im):
     return " ".join(str(int(x)) for x in a.shape) + " | " + " ".join(str(int(x)) for x in a.ravel())
 
 
-def aline(line, vector):
-    """`prog/stack/append ...` request -> the array request `aprog/astack/aappend C ...`."""
+def aline(line, vector, tensor=False):
+    """`prog/stack/append ...` request -> the array request `aprog/astack/aappend <component shape> ...`
+    (component shape as a length-prefixed list: scalar `0`, vector `1 2`, tensor `2 2 2`)."""
     op, rest = line.split(" ", 1)
-    return f"a{op} {2 if vector else 1} {rest}"
+    return f"a{op} {'2 2 2' if tensor else '1 2' if vector else '0'} {rest}"
 
 
 def describe(im, roots):
@@ -291,7 +300,7 @@ def trace_check(d, root_im, r, final, dyadic, slabpos=None):
     Returns list of (signature, what)."""
     fails = []
     dim = r["dim"]
-    if bool(final.scalar) != (not r["vector"]):
+    if bool(final.scalar) != (not (r["vector"] or r.get("tensor"))):
         fails.append(("C02:payload-layout:scalar-flag", f"scalar flag {final.scalar} differs from the root's"))
     try:
         slabs = decode_slabs(final)
@@ -317,6 +326,11 @@ def trace_check(d, root_im, r, final, dyadic, slabpos=None):
             fails.append(("C02:data:foreign-root", f"slab {k} comes from root {rid}"))
             continue
         # payload layout: vector components in order
+        if r.get("tensor"):
+            raw = np.asarray(final.img)
+            comp = raw[..., k, :, :] if final.series else raw
+            if comp.shape[-2:] != (2, 2) or not all(np.array_equal(comp[..., a_, b_], comp[..., 0, 0] + (2 * a_ + b_)) for a_ in range(2) for b_ in range(2)):
+                fails.append(("C02:payload-layout:tensor-components", f"tensor components are permuted / mixed / not the (2, 2) block of one voxel (array shape {raw.shape})"))
         if r["vector"]:
             raw = np.asarray(final.img)
             comp = raw[..., k, :] if final.series else raw
@@ -401,7 +415,7 @@ def expected_selection(tok, parent):
         lo = [max(0, min(int(p_[a]) for p_ in pts)) for a in range(dim)]
         hi = [max(0, min(max(int(p_[a]) for p_ in pts), N[a])) for a in range(dim)]
         return parent.img[tuple(slice(l, h) for l, h in zip(lo, hi))]
-    tail = (slice(None),) if not parent.scalar else ()
+    tail = (slice(None),) * int(parent.range_dim) if not parent.scalar else ()
     if w[0] == "tslice":
         return parent.img[(Ellipsis, int(w[1])) + tail]
     if w[0] == "tint":
@@ -744,7 +758,7 @@ def run(ctx):
     nprog = ctx.pick(300, 5000)
     for n in range(nprog):
         dyadic = n % 4 != 3  # a quarter of the programs on general floats (oracle only)
-        r = gen_root(rng, rid=n % 7, dyadic=dyadic)
+        r = gen_root(rng, rid=n % 7, dyadic=dyadic, tensor=(n % 11 == 5))
         nsteps = rng.randint(1, 4)
         malformed_at = rng.randrange(nsteps) if (dyadic and rng.random() < 0.12) else None
         out = call(run_program, d, rng, r, nsteps, dyadic, malformed_at)
@@ -765,8 +779,8 @@ def run(ctx):
             else:
                 dsc = call(describe, final, {r["rid"]: r})
                 impl.append("!undescribable" if isinstance(dsc, Raised) else dsc)
-            # the pixel ARRAY itself, entry by entry, against the array model
-            lines.append(aline(line, r["vector"]))
+            # the pixel ARRAY itself, entry by entry, against the array model (scalar, vector and tensor payloads)
+            lines.append(aline(line, r["vector"], r.get("tensor", False)))
             impl.append(arr_str(final))
         if isinstance(final, Raised):
             bump("raised:" + repr(final))
